@@ -33,6 +33,7 @@ class PropertyCheck:
     pid = "C00"
     props_module = None                 # e.g. "Properties.Properties_C14"
     extra_targets = []                  # further .vo targets (e.g. extraction files)
+    extra_props = []                    # further statement-only modules whose Theorems are audited like props_module
     gen_files = []                      # Gen/*.v consumed (translator failure => broken tie)
     allowed_axioms = []                 # names of stdlib axioms tolerated in Print Assumptions
     trusted_base = []
@@ -79,9 +80,12 @@ class PropertyCheck:
                     self.broken.append(Broken("translator", "Gen/" + g, st.get("error", "")))
             if "__translator__" in gen:
                 self.broken.append(Broken("translator", "gen_from_source.py", gen["__translator__"]["error"]))
-            targets = [props_v + "o"] + list(self.extra_targets)
+            extra_v = [m.replace(".", "/") + ".v" for m in self.extra_props]
+            targets = [props_v + "o"] + [v + "o" for v in extra_v] + list(self.extra_targets)
             build = vlib.coq_build(targets, timeout=3000 if self.tier == "thorough" else 1500)
         cone = vlib.module_deps(props_v)
+        for v in extra_v:
+            cone = sorted(set(cone) | set(vlib.module_deps(v)))
         nobl, names = vlib.count_obligations(cone)
         failed_files = sorted(set(f[0] for f in build["failed"]))
         failed_obl = 0
@@ -104,6 +108,13 @@ class PropertyCheck:
             ok, assum, log = vlib.print_assumptions(self.props_module, thms, self.work)
             if not ok:
                 self.broken.append(Broken("assumptions", "Print Assumptions failed", log))
+            for mod, v in zip(self.extra_props, extra_v):
+                t2 = vlib.theorem_names(v)
+                ok, a2, log = vlib.print_assumptions(mod, t2, self.work)
+                if not ok:
+                    self.broken.append(Broken("assumptions", "Print Assumptions failed for " + mod, log))
+                assum.update(a2)
+                thms = thms + t2
             for t in thms:
                 txt = assum.get(t, "")
                 if "Closed under the global context" in txt:
@@ -114,7 +125,7 @@ class PropertyCheck:
                     self.broken.append(Broken("assumptions", t, "depends on: " + txt[:500]))
         cov["obligations"] = nobl
         cov["discharged"] = max(0, nobl - failed_obl) if not build["ok"] else nobl
-        cov["checker_cmd"] = "make -f Makefile.coq -k %s (coqc 8.16.1, full .vo build) + Print Assumptions on %s" % (props_v + "o", ", ".join(thms))
+        cov["checker_cmd"] = "make -f Makefile.coq -k %s (coqc 8.16.1, full .vo build) + Print Assumptions on %s" % (" ".join([props_v + "o"] + [v + "o" for v in extra_v]), ", ".join(thms))
         cov["theorems"] = thms
         cov["print_assumptions"] = assum
         cov["proof_build_wall_s"] = build["wall_s"]
